@@ -30,6 +30,7 @@ type c12Cfg struct {
 	PerPhase  int    `json:"per_phase"`
 	Phases    int    `json:"phases"`
 	SpacingUs int64  `json:"spacing_us"`
+	NoPause   bool   `json:"no_pause,omitempty"` // feedback mode: the stream does not pause while the heap is measured (state that only a pause releases counts as growth)
 	Window    int    `json:"window,omitempty"` // backlog mode: the sender keeps up to 2*Window packets inside the pacer at all times
 }
 
@@ -58,6 +59,9 @@ func (c12) Gen(seed int64, tier string, avoid []string) *Plan {
 	}
 	if cfg.Mode == "churn" {
 		cfg.PerPhase /= 4
+	}
+	if cfg.Mode == "feedback" {
+		cfg.NoPause = chance(r, 600)
 	}
 	if cfg.Mode == "backlog" {
 		// a closed-loop sender in front of the pacing interceptor: the queue is never empty (not at the end of a
@@ -170,11 +174,15 @@ func (c12) Run(e *Env) {
 		// acknowledge what was sent recently (TWCC and RFC 8888), ask for a retransmission, send SR/RR
 		k := 20
 		syms := make([]twccSym, k)
+		// a real receiver: every packet is acknowledged, the arrival times continue from one feedback to the next
+		// (the packets arrived one sending interval apart, the last one just now)
+		nowUs := e.S.Now().Microseconds()
 		for i := range syms {
-			syms[i] = twccSym{Recv: true, DeltaUs: 1000}
+			syms[i] = twccSym{Recv: true, DeltaUs: cfg.SpacingUs}
 		}
+		syms[0].DeltaUs = nowUs%64000 - int64(k-1)*cfg.SpacingUs
 		base := tseq - uint16(k)
-		rtcpIn = encodeTWCC(9, 1100, base, uint32(e.S.Now()/(64*time.Millisecond)), uint8(r.Intn(256)), syms, r, false)
+		rtcpIn = encodeTWCC(9, 1100, base, uint32(nowUs/64000), uint8(r.Intn(256)), syms, r, false)
 		rtcpR.Read(rbuf, interceptor.Attributes{})
 		var ms []ccfbMetric
 		for i := 0; i < k; i++ {
@@ -211,6 +219,10 @@ func (c12) Run(e *Env) {
 				sentN++
 			}
 			simrt.Sleep(time.Microsecond) // the pacer's goroutine takes them off its hand-off channel
+		} else if cfg.NoPause {
+			// an uninterrupted stream: the next packet follows within the usual spacing (plus the time the
+			// queues need), so nothing that only a pause in the stream would release is released here
+			simrt.Sleep(3 * time.Millisecond)
 		} else {
 			simrt.Sleep(600 * time.Millisecond) // let timers prune and queues drain
 		}
@@ -388,7 +400,10 @@ func (c12) Run(e *Env) {
 		return
 	}
 	limit := int64(perUnit*float64(cfg.PerPhase) + slack)
-	if cfg.Mode == "backlog" && len(heap) >= 7 {
+	if len(heap) >= 7 {
+		// Envelope rule (every workload): "growth in every one of the last three phases" cannot see a leak inside
+		// an amortised container that is not reachable from the interceptor value (a slice local to a goroutine
+		// grows in steps: +1 MB, +1 MB, +0.5 KB).
 		// With a standing backlog the heap is a sawtooth even when nothing leaks (the pacer's slice slides through
 		// its backing array, which keeps released packets reachable until it is replaced), and a leak in an
 		// amortised container grows in steps: compare the envelope of the last three phases with that of the
@@ -400,9 +415,12 @@ func (c12) Run(e *Env) {
 		rise := min(hi(heap[n-3:])-hi(heap[n-6:n-3]), lo(heap[n-3:])-lo(heap[n-6:n-3]))
 		bound := 3*limit + int64(2*cfg.Window)*600
 		if rise > bound {
-			e.Violatef("oracle", "c12:grows:"+cfg.Kind+":"+cfg.Mode, "%s with a standing backlog of %d packets: the heap envelope of the last three phases of %d packets lies %d bytes above that of the three phases before (limit %d); heap at phase ends: %v", cfg.Kind, 2*cfg.Window, cfg.PerPhase, rise, bound, heap)
+			e.Violatef("oracle", "c12:grows:"+cfg.Kind+":"+cfg.Mode, "%s, workload %q (standing backlog: %d packets): the heap envelope of the last three phases of %d packets lies %d bytes above that of the three phases before (limit %d); heap at phase ends: %v", cfg.Kind, cfg.Mode, 2*cfg.Window, cfg.PerPhase, rise, bound, heap)
+			return
 		}
-		return
+		if cfg.Mode == "backlog" {
+			return
+		}
 	}
 	if minGrowth > limit {
 		e.Violatef("oracle", "c12:grows:"+cfg.Kind+":"+cfg.Mode, "%s, workload %q: the heap after two GCs grew by at least %d bytes (%d objects) in every one of the last %d successive phases of %d packets each (limit %d); heap at phase ends: %v", cfg.Kind, cfg.Mode, minGrowth, minObj, 3, cfg.PerPhase, limit, heap)
